@@ -1665,13 +1665,18 @@ def rule_r20(repo, run):
     seq = apps[0]
     while not isinstance(seq, ast.stmt):
         seq = seq._parent
-    body = getattr(seq._parent, "body", [])
+    body = []
+    for fld in ("body", "orelse", "finalbody"):
+        lst = getattr(seq._parent, fld, None)
+        if isinstance(lst, list) and any(st is seq for st in lst):
+            body = lst
     idx = [k for k, st in enumerate(body) if st is seq]
     tested = False
     if idx:
         for st in body[:idx[0]]:
             if isinstance(st, ast.If) and re.search(r"nodename|isinstance\(", ast.unparse(st.test)) and \
-                    any((pyflow.call_name(c) or "") == "self.error_msg" or isinstance(c, ast.Raise) for x in st.body for c in ast.walk(x)):
+                    any((pyflow.call_name(c) or "") == "self.error_msg" or isinstance(c, ast.Raise)
+                        for x in st.body + st.orelse for c in ast.walk(x)):
                 tested = True
     run.check(R, "declast.Parser.class_statement:base-is-a-class", tested,
               "whatever the symbol table returns for the name after `:` is recorded as base class: for a namespace "
